@@ -317,6 +317,8 @@ def run(ctx):
     with warnings.catch_warnings():
         warnings.simplefilter("ignore")
         nx = extra_numeric(ctx)
+    from vlib import gradpattern
+    ctx.replayed = gradpattern.replay(ctx, ["mcquad"], "mc")
     ctx.samples.append(traces[7])
     ctx.notes.update(executions=len(traces), extra_numeric_cases=nx)
     ctx.assumptions += [
